@@ -5,7 +5,8 @@
 Require Import List NArith ZArith Bool.
 Import ListNotations.
 Require Import LV.PropTree.PropModel LV.PropTree.DocSpec LV.PropTree.PropProofs LV.PropTree.QuoteProofs
-        LV.PropTree.RebuildProofs LV.PropTree.ApiProofs LV.PropTree.WfProofs.
+        LV.PropTree.RebuildProofs LV.PropTree.ApiProofs LV.PropTree.WfProofs
+        LV.PropTree.DescGrammar LV.PropTree.GrammarProofs.
 
 (* For every sequence of set / delete / get / type / count / keys / get_subtree / set_subtree
    operations (including the compound "set_subtree, then set / delete on the returned anchor") the
@@ -253,3 +254,37 @@ Theorem c13_trim_after_escapes_example :
   scan [92; 46; 92; 46; 97; 32; 32]%N = (T_ID [46; 46; 97; 32]%N, []).
 Proof. exact trim_after_escapes_example. Qed.
 Print Assumptions c13_trim_after_escapes_example.
+
+(* ---------------------------------------------------------------- the descriptor grammar.
+   DescGrammar.denotes d es t r: d tokenises (scanner) into a token list that the declarative
+   grammar of vnaproperty(3) ("Syntax of the Descriptor": optional leading dot, dot-separated keys
+   and subscripts, optional ending ".", "{}", "[]") derives with denotation es, followed by the
+   look-ahead token t and the unread bytes r.  For ALL byte strings the parser returns exactly
+   that (soundness and completeness); it fails exactly when no prefix of d is a descriptor; the
+   denotation is unique. *)
+Theorem c13_descriptor_grammar (d : bytes) es t r :
+  parse d = Some (es, t, r) <-> denotes d es t r.
+Proof. exact (parse_iff_grammar d es t r). Qed.
+Print Assumptions c13_descriptor_grammar.
+
+Theorem c13_descriptor_grammar_rejects (d : bytes) :
+  parse d = None <-> forall es t r, ~ denotes d es t r.
+Proof. exact (parse_none_iff d). Qed.
+Print Assumptions c13_descriptor_grammar_rejects.
+
+Theorem c13_descriptor_denotation_unique (d : bytes) es t r es' t' r' :
+  denotes d es t r -> denotes d es' t' r' -> es = es' /\ t = t' /\ r = r'.
+Proof. exact (denotes_unique d es t r es' t' r'). Qed.
+Print Assumptions c13_descriptor_denotation_unique.
+
+(* the parser's own LL(1) grammar (four states) generates the same language as the manual's *)
+Theorem c13_ll1_grammar_is_manual_grammar ts t es : G P0 ts t es <-> desc ts t es.
+Proof. exact (G_desc ts t es). Qed.
+Print Assumptions c13_ll1_grammar_is_manual_grammar.
+
+(* ".a.b[2][+].{}=x" is in the language; "a..b" is not a descriptor followed by the end *)
+Theorem c13_descriptor_grammar_example :
+  denotes [46; 97; 46; 98; 91; 50; 93; 91; 43; 93; 46; 123; 125; 61; 120]%N
+          [E_MAP_ELEMENT [97%N]; E_MAP_ELEMENT [98%N]; E_LIST_ELEMENT 2; E_LIST_APPEND; E_MAP] T_ASSIGN [120%N].
+Proof. exact denotes_example. Qed.
+Print Assumptions c13_descriptor_grammar_example.
